@@ -52,6 +52,10 @@ def type_of(c):
         return {'k': 'prim', 'p': 'DateTime', 'facets': {c['facet']: B}}
     if g == 'zone':
         return {'k': 'prim', 'p': 'DateTime', 'facets': {c['facet']: {'dt': [2020, 1, 1, 0, 0, 0, 0, 0]}, 'as_timezone': {'fixed': 120}}}
+    if g == 'attrreq':
+        at = ({'k': 'attr', 'of': {'k': 'prim', 'p': 'Integer', 'min': 1}} if c['decl'] == 'min1'
+              else {'k': 'attr', 'of': {'k': 'prim', 'p': 'Integer'}, 'use': 'required'})
+        return {'k': 'obj', 'name': 'At_' + c['decl'], 'fields': [['v', at], ['w', {'k': 'prim', 'p': 'Integer'}]]}
     if g == 'subname':
         return {'k': 'obj', 'name': 'Sn', 'fields': [['x', {'k': 'prim', 'p': 'Integer', 'min': 1, 'sub_name': 'xx'}], ['w', {'k': 'prim', 'p': 'Integer'}]]}
     if g == 'inh':
@@ -103,6 +107,10 @@ def value_of(c, fam):
         if c['how'] == 'z':
             return inst.replace(tzinfo=utc)
         return inst.replace(tzinfo=None) + datetime.timedelta(minutes=120)          # (no designator: wall-clock time at UTC+02:00)
+    if g == 'attrreq':
+        if c['decl'] == 'required' and c['how'] == 'absent' and fam not in ('xml', 'soap11', 'soap12'):
+            return SKIP          # (use = required is a declaration of the XML schema: the other notations have ordinary members)
+        return {'v': 5, 'w': 1} if c['how'] == 'present' else {'w': 1}
     if g == 'subname':
         return {'x': 5, 'w': 1} if c['how'] == 'present' else {'w': 1}
     if g == 'inh':
